@@ -301,7 +301,7 @@ class TU:
                 elif t == "once":
                     self.once.add(self.m.rel(os.path.realpath(os.path.join(self.m.top, rel))))
                 elif t == "include":
-                    form, sp = it[1], it[2]
+                    form, sp = it[1], it[2].replace("@TOP@", self.m.top)
                     if form == "m":
                         v = self.macros.get(sp)
                         if v is None:
